@@ -17,7 +17,7 @@ CHECKS = {
  "C20": ("exploration", "bounded-exhaustive enumeration of the C01 message space through serde_json on the real types",
          "Every message of the C01 space round-trips through serde_json as IppRequestResponse, IppAttributes and bare IppValue; payload must not be serialised and must read empty afterwards.",
          "JSON is the only carrier format exercised; trusts serde_json.", "DESIGN.md §5 C20"),
- "C02": ("exploration", "process-isolated bounded-exhaustive sweeps (bytes, tag x length grid, inner lengths, all token sequences, all grammar-aware mutations, structural bombs) on both parsers and the value decoder",
+ "C02": ("exploration", "process-isolated bounded-exhaustive sweeps (bytes, tag x length grid, inner lengths, all token sequences, all grammar-aware mutations, structural bombs incl. nesting with a sibling value at every level) on both parsers and the value decoder",
          "Every input of six exhaustively enumerated families runs through IppParser, AsyncIppParser and IppValue::parse in worker processes with a 2 MiB stack; every Ok result is displayed, re-encoded, traversed, cloned and dropped. Panic, death by signal and stalled heartbeat are violations, confirmed by re-running the single case alone in a fresh process.",
          "Totality is claimed for the enumerated families only (see rule); inputs above 1 MiB are out of scope. Trusts the OS to report signals and the heartbeat file.", "DESIGN.md §5 C02"),
  "C04": ("model_checking", "exhaustive enumeration of all token sequences <= k and of bounded grammar trees, partitioned by the reference decoder R1; every accepted trace executed on the real parser",
@@ -27,28 +27,28 @@ CHECKS = {
          "Async parser outcome equals the blocking parser outcome (content, payload, offending tag, I/O error kind) under every composition of every short message and under uniform / 1-cut / 2-cut fragmentations with every not-ready pattern (immediate, deferred wake, spurious re-poll) for a large well-formed and malformed input set; lost wake-ups and unbounded polling are violations.",
          "The executor owns all wake-ups (no runtime). Long inputs are covered up to 2 cuts with <= 2 not-ready answers per boundary, not all compositions.", "DESIGN.md §5 C05"),
  "C06": ("model_checking", "stateless exploration of read fragmentations (all compositions for short messages, uniform/1-cut/2-cut for long) x Interrupted / not-ready answers, with a consumption monitor inside the scripted source",
-         "At the moment parse / parse_parts returns, the source has delivered exactly |header+attributes| bytes and no read ever asked beyond it; the payload read afterwards is byte-identical - also when it is read through the other interface than the one that parsed (async-parsed -> Read, blocking-parsed -> AsyncRead) from a source that keeps fragmenting / answering not-ready; the result equals whole delivery - for both parsers; documents of 1 GiB + 4097 (4 GiB + 4097) bytes streamed from a pattern generator come through exactly; a length ladder (every multiple of 1000 / 1024 +-1) covers name, value and member-name lengths.",
+         "At the moment parse / parse_parts returns, the source has delivered exactly |header+attributes| bytes and no read ever asked beyond it; the payload read afterwards is byte-identical - also when it is read through the other interface than the one that parsed (async-parsed -> Read, blocking-parsed -> AsyncRead) from a source that keeps fragmenting / answering not-ready; the result equals whole delivery - for both parsers; documents of 1 GiB + 4097 (4 GiB + 4097) bytes streamed from a pattern generator come through exactly, also through vectored async reads; a length ladder (every multiple of 1000 / 1024 +-1) covers name, value and member-name lengths.",
          "Monitor counts bytes requested/delivered at the Read/AsyncRead seam; an implementation that peeks through another channel is out of reach.", "DESIGN.md §5 C06"),
  "C07": ("fault_enumeration", "exhaustive single-fault injection: every cut offset and every (offset, error kind) on every corpus message (incl. long multi-octet names/texts at every alignment), both parsers, both entry points, two delivery variants, four error shapes (bare kind, text payload, payload wrapping another io::Error, raw OS error), with an evaluating logger installed",
          "Every proper prefix of the header+attributes section of every corpus message is rejected with UnexpectedEof, and every injected I/O error kind at every offset comes back as that kind; never Ok, never partial, never a panic.",
          "Single faults only (one cut or one error per run).", "DESIGN.md §5 C07"),
  "C08": ("model_checking", "exhaustive product of payload sources x lengths x consumer buffer-size sequences x interfaces on the real stream adaptors, scripted sources and manual executor",
-         "Reading a message as a stream through into_read / into_async_read (and a bare IppPayload through both interfaces) yields exactly to_bytes() ++ payload then end-of-stream, for every payload source kind (incl. sync-as-async and async-as-sync bridging with not-ready answers), boundary payload lengths and every buffer-size prefix of length <= 2 (3); a payload source that fails (10 error kinds x 5 offsets x both source kinds x both interfaces) never makes the stream end cleanly, a transient failure loses nothing for a consumer that reads on, and payloads of 1 GiB + 4097 (4 GiB + 4097) bytes from a pattern generator come through exactly.",
+         "Reading a message as a stream through into_read / into_async_read (and a bare IppPayload through both interfaces) yields exactly to_bytes() ++ payload then end-of-stream, for every payload source kind (incl. sync-as-async and async-as-sync bridging with not-ready answers), boundary payload lengths and every buffer-size prefix of length <= 2 (3); a payload source that fails (10 error kinds x 5 offsets x both source kinds x both interfaces) never makes the stream end cleanly, a transient failure loses nothing for a consumer that reads on, vectored consumers (five slice shapes) get the same stream, and payloads of 1 GiB + 4097 (4 GiB + 4097) bytes from a pattern generator come through exactly.",
          "Deferred wake-ups under block_on are fired by a helper OS thread; its timing cannot change the byte stream.", "DESIGN.md §5 C08"),
  "C09": ("model_checking", "exhaustive enumeration of builder programs x addition sequences, each re-run until all m! HashMap iteration orders were observed; oracle on R1-decoded bytes",
-         "For every builder/constructor program followed by every sequence of <= 2 (3) further additions, under every iteration order of the unordered operation attributes (m <= 4, complete permutation coverage), the encoded message starts with the operation group, charset, natural-language, then printer-uri/job-uri and job-id in RFC 8011 order; every operation attribute name of RFC 8011 / CUPS and look-alikes of the mandatory names are among the additions.",
+         "For every builder/constructor program followed by every sequence of <= 2 (3) further additions, under every iteration order of the unordered operation attributes (m <= 4, complete permutation coverage), the encoded message starts with the operation group, charset, natural-language, then printer-uri/job-uri and job-id in RFC 8011 order; every operation attribute name of RFC 8011 / CUPS and look-alikes of the mandatory names are among the additions; one base is built from IppAttributes::new() with another group first.",
          "Iteration orders are covered by observation (verdict only on complete coverage).", "DESIGN.md §5 C09"),
  "C10": ("model_checking", "choice-tree exploration (E1) of every builder call sequence <= 4 (5) calls over small argument domains; oracle = builder spec R4 written from RFC 8011",
          "Every sequence of builder calls for each of the 10 operations (plus URI sweep, payload sweep, direct constructors, raw constructors with every version) yields exactly the request the spec R4 derives from the arguments, in memory and after to_bytes() -> R1.decode; long argument lists (5..300 attributes over few names, three ways of handing them over) keep last-wins and order.",
          "R4 was written from the property statement and RFC 8011 4.2-4.3, not from operation.rs.", "DESIGN.md §5 C10"),
  "C11": ("fault_enumeration", "exhaustive enumeration of peer scripts (framings x write fragmentations x every status x every cut offset x stalls and slow-but-steady dribbling x N! answer orders) and client configurations against a hand-written loopback HTTP peer; real clients, real sockets",
-         "Both clients: request side (exact POST target, Host, content-type, custom headers, Basic credentials, body = request + payload) over the product of requests x payloads x configurations x paths x schemes; response side over framings x write plans incl. every two-piece split; every 4xx/5xx; cut after every offset of header+attributes under each framing; stalls and dribbling servers (never silent for long, slower overall than the timeout) with/without timeout; the URL really contacted for 4 480 target shapes x configurations; a request changed after to_bytes(); two sends through one client; connections reset (RST) with later connections served; no failure scenario may open a second connection; response documents and request payloads of 256 MiB + 4097 (1 GiB + 4097) bytes under each framing; N concurrent senders with every answer order.",
+         "Both clients: request side (exact POST target, Host, content-type, custom headers, Basic credentials, body = request + payload) over the product of requests x payloads x configurations x paths x schemes; response side over framings x write plans incl. every two-piece split; every 4xx/5xx; cut after every offset of header+attributes under each framing; stalls and dribbling servers (never silent for long, slower overall than the timeout) with/without timeout; the URL really contacted for 4 480 target shapes x configurations; a request changed after to_bytes(); two sends through one client; connections reset (RST) with later connections served; no failure scenario may open a second connection; HTTP errors carry four body kinds (incl. an IPP error response); six spellings of the Content-Type line; response documents and request payloads of 256 MiB + 4097 (1 GiB + 4097) bytes under each framing; N concurrent senders with every answer order.",
          "Thread interleavings inside hyper/tokio/ureq are not controlled (send(&self) builds a fresh agent per call; the answer order - the only cross-request channel - is enumerated). Verdicts depend only on outcome classes stable under TCP coalescing. The system trust store is replaced by an empty one.", "DESIGN.md §5 C11"),
  "C12": ("exploration", "complete finite matrix of 1120 (2240) TLS configurations, one real handshake each against a loopback TLS peer with run-time minted certificates; two builds for the two backends",
          "{blocking, async} x {native-tls, rustls} x ignore flag {unset, false, true, true-then-false, false-then-true on one builder} x extra root {none, correct PEM, correct DER, unrelated, correct DER ending in a white-space octet, correct PEM with CRLF, correct PEM with UTF-8 explanatory text around the armour} x server certificate kind x target host form {localhost with a DNS SAN, 127.0.0.1 with an iPAddress SAN, and the two mismatches}, complete, plus every ordered pair of an 8-configuration subset in a fresh process; accepted iff the last ignore call said true or (correct root and valid certificate matching the target host); on rejection no application byte reaches the peer.",
          "localhost resolves to 127.0.0.1; system trust store replaced by an empty one (SSL_CERT_FILE/SSL_CERT_DIR).", "DESIGN.md §5 C12"),
  "C18": ("exploration", "exhaustive enumeration of command lines x scripted printers on the real ipputil binary built from /repo, observed at a loopback peer",
-         "Option lists of length 0..2 (3) over 12 option texts x job/user names, 24 typing witnesses (zero-padded / negative / out-of-range decimals, look-alikes) judged by an independent decimal rule; Print-Job answered with a sweep of 825 status codes; the Print-Job connection reset with later connections served (every content size, file and stdin); contents incl. BufReader boundaries and MiBs, file and stdin; all printer answer scripts (ready / stopped / blocked / IPP error / HTTP error / cut) with and without the state check. Oracle: request sequence, typed options, document octets, exit status.",
+         "Option lists of length 0..2 (3) over 12 option texts x job/user names, 24 typing witnesses (zero-padded / negative / out-of-range decimals, look-alikes) judged by an independent decimal rule; Print-Job answered with a sweep of 825 status codes; the Print-Job connection reset with later connections served (every content size, file and stdin); five further spellings of the Content-Type line; contents incl. BufReader boundaries and MiBs, file and stdin; all printer answer scripts (ready / stopped / blocked / IPP error / HTTP error / cut) with and without the state check. Oracle: request sequence, typed options, document octets, exit status.",
          "The binary is rebuilt from /repo's working tree on every run; runs are real processes against real sockets.", "DESIGN.md §5 C18"),
  "C13": ("exploration", "complete product of 80 640 target URIs through the helper and every constructor; oracle = string-level RFC 3986 splitter R3",
          "The whole D-uri product is canonicalised by the helper (plus idempotence) and by the raw constructor, a sub-product by all builders; the printer-uri never contains user-info or query and keeps host, port and path.",
@@ -57,13 +57,13 @@ CHECKS = {
          "ipp->http, ipps->https, default port 631 for both, everything else unchanged, http/https untouched - over the whole D-uri product; and both clients really contact that URL (request target, Host header, one connection) for every combination of scheme, host, user-info, path and query (with '@', ':' and '/' inside them) and client configuration (plain, basic_auth, custom header, Authorization header). Port-less ipps -> 443 is the recorded known finding KF-C14-1 (pinned by the repository's own test).",
          "Hook verif_transport_url is a pass-through to the private mapper; the wire half only reaches hosts that resolve to the loopback interface and explicit ports.", "DESIGN.md §5 C14"),
  "C15": ("exploration", "exhaustive enumeration of all two-phase periodic input families over the token alphabet x doubling sizes; counting allocator with budget + callgrind instruction counts",
-         "Every family header.u^n.v^n.end (|u|<=2, |v|<=1 quick / 2 thorough), value-length, distinct-name and distinct-member families: allocation during parse is bounded by one linear constant, callgrind instruction counts grow < 2.6x per doubling for the costliest and structurally dangerous families, wall-clock only as a 100x backstop.",
+         "Every family header.u^n.v^n.end (|u|<=2, |v|<=1 quick / 2 thorough), value-length, distinct-name, distinct-member and long-name-with-many-values families: allocation during parse is bounded by one linear constant, callgrind instruction counts grow < 2.6x per doubling for the costliest and structurally dangerous families, wall-clock only as a 100x backstop.",
          "Bounded evidence for an asymptotic claim; aperiodic adversarial inputs are outside the class.", "DESIGN.md §5 C15"),
  "C16": ("exploration", "complete enumeration of all 65 536 codes / 256 tag bytes against registry tables R2",
-         "Status decoding is total and exact over all 16-bit codes, for every protocol version x request-id, in memory and on parsed responses; the command-line tool's own classification (exit status of ipputil print for 825 status codes) agrees; operation ids, delimiter and value tags and the five enum types never map a code to a symbol of a different code; success classification is right on 0-2 and never true >= 0x0100; each value kind is emitted with its registered tag.",
+         "Status decoding is total and exact over all 16-bit codes, for every protocol version x request-id, in memory and on parsed responses; the readiness helper's status gate (all codes, with and without a printer group) and the command-line tool's own classification (exit status of ipputil print for 825 status codes) agree; operation ids, delimiter and value tags and the five enum types never map a code to a symbol of a different code; success classification is right on 0-2 and never true >= 0x0100; each value kind is emitted with its registered tag.",
          "Registry tables typed in from RFC 8010/8011, PWG 5100.1, CUPS. Completeness is demanded for status codes only (as the property states).", "DESIGN.md §5 C16"),
  "C17": ("exploration", "exhaustive product status x state x reason tuples x shape x context; oracle = readiness spec R5 (defined regions only)",
-         "All 65 536 statuses through the gate; every ordered tuple of 1..2 (3) reason keywords (3 (4) on a reduced product) over 10 blocking + 6 informational words, 9 printer-state forms, in-memory and parsed-from-wire shapes, three contexts.",
+         "All 65 536 statuses through the gate; every ordered tuple of 1..2 (3) reason keywords (3 (4) on a reduced product) over 10 blocking + 6 informational words, 9 printer-state forms, in-memory and parsed-from-wire shapes, seven contexts (decoy groups, split printer groups).",
          "Cases outside the three regions the statement defines accept any Ok(_).", "DESIGN.md §5 C17"),
  "C19": ("model_checking", "explicit-state BFS to a fixpoint (closed state space) over real IppAttributes objects rebuilt from histories; reference = ordered container model R6; exhaustive traversal check",
          "The reachable state space of add() over a 16 (24)-operation alphabet is explored to a fixpoint from the empty container and from parser-produced messages with repeated/empty groups; every transition compares groups(), groups_of(kind) and into_groups() with the model. Value traversal is compared element-by-element (pointer identity) for every value of a bounded value space and for collections over every subset of <= 3 of 11 tricky member names (empty, case twins, NFC/NFD, trailing blank/NUL), built in memory and parsed.",
